@@ -16,7 +16,7 @@ def load_registry(modules=None) -> Registry:
     for mn in modules or SIDECARS:
         m = importlib.import_module(mn)
         m.install(R)
-        for extra in ("install2", "install3", "install4", "install5", "install6", "install7", "install8"):
+        for extra in ("install2", "install3", "install4", "install5", "install6", "install7", "install8", "install9", "install10"):
             if hasattr(m, extra):
                 getattr(m, extra)(R)
     return R
